@@ -169,6 +169,15 @@ def object_oracle(res, rng, s, parts, tier):
             live.append((whole, 'whole', wrots))
             res.evaluations += 1
             res.count('object_split_k%d' % k)
+            partial = bool((sum(sub) + int(collide)) % 2)
+            if partial:
+                # an abandoned first iteration must not influence later calls (it may consume an automatic name)
+                try:
+                    g = whole.split()
+                    first = next(g, None)
+                    del g, first
+                except SingletonError:
+                    pass
             # expectation: direct statement of the contract on the registry state
             exp, expect_raise, nid = [], False, ComplexS.ID
             sim = list(live)
@@ -191,6 +200,23 @@ def object_oracle(res, rng, s, parts, tier):
                 raised = False
             except SingletonError:
                 raised, got, got2 = True, [], []
+            if raised and expect_raise and collide:
+                # retry once the colliding automatic name is free again: every component must be yielded
+                for e in list(live):
+                    if e[1] == cname and e[0] is not None:
+                        live.remove(e)
+                e = None
+                try:
+                    retry = list(whole.split())
+                    keys = set()
+                    for g_ in retry:
+                        keys |= set(ref.rotations([str(x) for x in g_.sequence], list(g_.structure)))
+                    if len(retry) != len(comps) or any((tuple(a), tuple(b)) not in keys for a, b in comps):
+                        res.violation('split():incomplete-after-retry', {'op': ['ComplexS.split retry', ' '.join(names), s, 'pre=' + ''.join(map(str, sub))]},
+                                      '%d parts' % len(retry), 'all %d components' % len(comps))
+                    del retry
+                except SingletonError:
+                    pass
             desc = {'op': ['ComplexS.split', ' '.join(names), s, 'pre=' + ''.join(map(str, sub)), 'collide=%s' % collide]}
             if raised != expect_raise:
                 res.violation('split():raise-mismatch', desc, 'raised' if raised else 'yielded %d' % len(got),
